@@ -5,6 +5,7 @@ open XC.C05
 inductive XOp where
   | w (n : Nat)
   | rd (n : Nat)
+  | sk (n : Nat)
   | clone
   | swap
   | reset
@@ -13,6 +14,7 @@ def parseXOp (s : String) : Option XOp :=
   if s == "c" then some .clone
   else if s == "x" then some .swap
   else if s == "r" then some .reset
+  else if s.startsWith "sk" then (s.drop 2).toString.toNat?.map .sk
   else if s.startsWith "rd" then (s.drop 2).toString.toNat?.map .rd
   else if s.startsWith "w" then (s.drop 1).toString.toNat?.map .w
   else none
@@ -31,6 +33,7 @@ def runX {X : XAlg} : Xof X → Option (Xof X) → List XOp → Bytes → List S
   | cur, oth, .rd n :: rest, data, acc =>
     let (cur', out, eof) := cur.read n
     runX cur' oth rest data ((if eof then "eof" else toHex out) :: acc)
+  | cur, oth, .sk n :: rest, data, acc => runX (cur.skip n) oth rest data acc
   | cur, _, .clone :: rest, data, acc => runX cur (some cur) rest data acc
   | cur, oth, .swap :: rest, data, acc =>
     match oth with
@@ -49,7 +52,7 @@ def xofOn (X : XAlg) (o : Op) : String :=
       | some outs => if outs.isEmpty then "none" else ",".intercalate outs
   | _, _, _, _ => "bad-op"
 
-/-- `xof alg=b|s len=N key=HEX ops=w5,rd10,c,rd3,x,rd4,r,… data=HEX` -/
+/-- `xof alg=b|s len=N key=HEX ops=w5,rd10,sk4096,c,rd3,x,rd4,r,… data=HEX` (`skN` = Read N bytes and discard them) -/
 def handle (line : String) : String :=
   let o := parseOp line
   if o.cmd != "xof" then "bad-op" else
